@@ -7,17 +7,21 @@ import (
 	"fmt"
 	"math/big"
 	"os"
+	"sort"
 	"strings"
 
 	sdkmath "cosmossdk.io/math"
+	storetypes "cosmossdk.io/store/types"
 	codectypes "github.com/cosmos/cosmos-sdk/codec/types"
 	sdk "github.com/cosmos/cosmos-sdk/types"
 	authtypes "github.com/cosmos/cosmos-sdk/x/auth/types"
 	vestingtypes "github.com/cosmos/cosmos-sdk/x/auth/vesting/types"
 	"github.com/cosmos/cosmos-sdk/x/authz"
 	banktypes "github.com/cosmos/cosmos-sdk/x/bank/types"
+	"github.com/ethereum/go-ethereum/common"
 	ethcrypto "github.com/ethereum/go-ethereum/crypto"
 
+	"github.com/EscanBE/evermint/v12/app/antedl/cosmoslane"
 	vauthkeeper "github.com/EscanBE/evermint/v12/x/vauth/keeper"
 	vauthtypes "github.com/EscanBE/evermint/v12/x/vauth/types"
 
@@ -29,36 +33,64 @@ func init() { Registry["C16"] = runC16 }
 
 var c16Cost = new(big.Int).Exp(big.NewInt(10), big.NewInt(18), nil)
 
-// c16Op is one proof submission.
-type c16Op struct {
-	Submitter string `json:"submitter"` // R (rich) | E (exactly the fee) | P (poor)
-	Account   string `json:"account"`   // A | B | self
-	Sig       string `json:"sig"`       // A | B | A-upper | A-64 | A-66 | empty | garbage | A-malleated | A-other-msg | A-v27
-	Spell     string `json:"spell,omitempty"` // "" = lower-case bech32 of the account, "upper" = the all-upper-case spelling of the same address
-}
+// c16SigLongAccount is the signature of the one genuine defect class this check knows on the unchanged tree: ValidateBasic of the
+// submission (and of the stored record) compares the recovered signer with common.BytesToAddress(account) = the LAST 20 bytes of
+// the account (left-padded when shorter), so for an account address whose length is not 20 bytes a proof is accepted and stored
+// (under the exact long byte string) although no key's Ethereum address is that account; vesting accounts can then be created for it.
+const c16SigLongAccount = "C16/proof-accepted-for-non-20-byte-account-signed-by-its-last-20-bytes"
 
-func (o c16Op) String() string {
-	if o.Spell != "" {
-		return fmt.Sprintf("submit(%s proves %s[%s-case bech32] with %s)", o.Submitter, o.Account, o.Spell, o.Sig)
-	}
-	return fmt.Sprintf("submit(%s proves %s with %s)", o.Submitter, o.Account, o.Sig)
-}
+// ---------------------------------------------------------------------------
+// address expressions
+// ---------------------------------------------------------------------------
+//
+// An address is written as a '|'-separated concatenation of parts:
+//   A B R E P     the 20-byte address of that key
+//   pad           12 fixed non-zero bytes;  zpad = 12 zero bytes (pad|X / zpad|X, X|pad: 32-byte module/ICA/ABI-word-like addresses)
+//   X[:19] X[1:]  the first / last 19 bytes of key X's address
+// so "B|A" is the 40-byte address victim||attacker, "A|pad" a 32-byte address that starts with A's 20 bytes, "pad|A" one that ends with them.
+
+var c16Pad = []byte{0xc1, 0x6c, 0x16, 0x5a, 0xa5, 0x3c, 0xc3, 0x0f, 0xf0, 0x99, 0x66, 0x01}
 
 type c16World struct {
 	w             *world.World
 	root          sdk.Context
 	ms            vauthtypes.MsgServer
 	R, E, P, A, B *world.Acct
+	funded        []string // address expressions with a tracked balance (the submitters)
+	sigA          []byte
+	addrCache     map[string]sdk.AccAddress
+	sigCache      map[string]c16Sig
+	msgCache      map[c16Op]*vauthtypes.MsgSubmitProofExternalOwnedAccount
 }
 
-func c16Setup() *c16World {
+type c16Sig struct {
+	s, signer string
+	canonical bool
+}
+
+// the two funded submitters whose addresses are not 20 bytes (part 1 only; they cannot sign transactions)
+const (
+	c16LongRich  = "A|pad" // 3 fees; starts with A's bytes
+	c16LongExact = "pad|B" // exactly 1 fee; ends with B's bytes
+)
+
+func c16Setup(longSubmitters bool) *c16World {
 	cw := &c16World{R: world.NewAcct("c16-rich"), E: world.NewAcct("c16-exact"), P: world.NewAcct("c16-poor"), A: world.NewAcct("c16-A"), B: world.NewAcct("c16-B")}
 	coin := func(v *big.Int) sdk.Coins { return sdk.NewCoins(sdk.NewCoin(world.Denom, sdkmath.NewIntFromBigInt(v))) }
-	w := world.New(world.Config{NumWallets: 2, Extra: []world.ExtraAccount{
+	extra := []world.ExtraAccount{
 		{Account: authtypes.NewBaseAccount(cw.R.Acc(), cw.R.Priv.PubKey(), 0, 0), Coins: coin(new(big.Int).Mul(c16Cost, big.NewInt(10)))},
 		{Account: authtypes.NewBaseAccount(cw.E.Acc(), cw.E.Priv.PubKey(), 0, 0), Coins: coin(c16Cost)},
 		{Account: authtypes.NewBaseAccount(cw.P.Acc(), cw.P.Priv.PubKey(), 0, 0), Coins: coin(new(big.Int).Sub(c16Cost, big.NewInt(1)))},
-	}})
+	}
+	cw.funded = []string{"R", "E", "P"}
+	if longSubmitters {
+		extra = append(extra,
+			world.ExtraAccount{Account: authtypes.NewBaseAccount(cw.addr(c16LongRich), nil, 0, 0), Coins: coin(new(big.Int).Mul(c16Cost, big.NewInt(3)))},
+			world.ExtraAccount{Account: authtypes.NewBaseAccount(cw.addr(c16LongExact), nil, 0, 0), Coins: coin(c16Cost)},
+		)
+		cw.funded = append(cw.funded, c16LongRich, c16LongExact)
+	}
+	w := world.New(world.Config{NumWallets: 2, Extra: extra})
 	w.Block(nil)
 	cw.w, cw.root = w, w.Ctx()
 	cw.ms = vauthkeeper.NewMsgServerImpl(w.App.VAuthKeeper)
@@ -81,6 +113,67 @@ func (cw *c16World) acct(n string) *world.Acct {
 	panic("acct " + n)
 }
 
+// addr resolves an address expression.
+func (cw *c16World) addr(expr string) sdk.AccAddress {
+	if a, ok := cw.addrCache[expr]; ok {
+		return a
+	}
+	if cw.addrCache == nil {
+		cw.addrCache = map[string]sdk.AccAddress{}
+	}
+	var out []byte
+	for _, part := range strings.Split(expr, "|") {
+		switch {
+		case part == "pad":
+			out = append(out, c16Pad...)
+		case part == "zpad":
+			out = append(out, make([]byte, 12)...)
+		case strings.HasSuffix(part, "[:19]"):
+			out = append(out, cw.acct(strings.TrimSuffix(part, "[:19]")).Acc()[:19]...)
+		case strings.HasSuffix(part, "[1:]"):
+			out = append(out, cw.acct(strings.TrimSuffix(part, "[1:]")).Acc()[1:]...)
+		default:
+			out = append(out, cw.acct(part).Acc()...)
+		}
+	}
+	cw.addrCache[expr] = sdk.AccAddress(out)
+	return cw.addrCache[expr]
+}
+
+func (cw *c16World) balance(ctx sdk.Context, expr string) *big.Int {
+	return cw.w.App.BankKeeper.GetBalance(ctx, cw.addr(expr), world.Denom).Amount.BigInt()
+}
+
+// c16Universe is the set of addresses whose proof status is observed after every transition: the keys, and for the two provable keys
+// every longer / shorter address that collides with them on its first or last 20 (19) bytes.
+func c16Universe() []string {
+	u := []string{"A", "B", "R", "E", "P"}
+	for _, p := range [][2]string{{"A", "B"}, {"B", "A"}} {
+		x, y := p[0], p[1]
+		u = append(u, x+"|pad", "pad|"+x, x+"|zpad", "zpad|"+x, x+"|"+y, x+"|R", "R|"+x, x+"[:19]", x+"[1:]")
+	}
+	return u
+}
+
+// ---------------------------------------------------------------------------
+// part 1: proof submissions at message-server level
+// ---------------------------------------------------------------------------
+
+// c16Op is one proof submission.
+type c16Op struct {
+	Submitter string `json:"submitter"`       // address expression of a funded submitter: R (rich) | E (exactly the fee) | P (one short) | A|pad (rich, 32 bytes) | pad|B (exactly the fee, 32 bytes)
+	Account   string `json:"account"`         // address expression | self
+	Sig       string `json:"sig"`             // A | B | R | A-upper | A-64 | A-66 | empty | garbage | A-malleated | A-other-msg | A-v27
+	Spell     string `json:"spell,omitempty"` // "" = lower-case bech32 of the account, "upper" = the all-upper-case spelling of the same address
+}
+
+func (o c16Op) String() string {
+	if o.Spell != "" {
+		return fmt.Sprintf("submit(%s proves %s[%s-case bech32] with %s)", o.Submitter, o.Account, o.Spell, o.Sig)
+	}
+	return fmt.Sprintf("submit(%s proves %s with %s)", o.Submitter, o.Account, o.Sig)
+}
+
 func signMsg(a *world.Acct, msg string) []byte {
 	key, _ := ethcrypto.ToECDSA(a.Priv.Key)
 	sig, err := ethcrypto.Sign(ethcrypto.Keccak256([]byte(msg)), key)
@@ -90,15 +183,30 @@ func signMsg(a *world.Acct, msg string) []byte {
 	return sig
 }
 
-// sigOf returns the hex signature string for a variant and whether it is (an encoding of) a signature made by A's / B's key
-// over the module's message: signer = "A" | "B" | "" ; canonical = produced exactly as a wallet would (lower-case hex, 65 bytes, low s).
+// sigOf returns the hex signature string for a variant and whether it is (an encoding of) a signature made by a known key
+// over the module's message: signer = key name | "" ; canonical = produced exactly as a wallet would (lower-case hex, 65 bytes, low s).
 func (cw *c16World) sigOf(v string) (s string, signer string, canonical bool) {
-	a := signMsg(cw.A, vauthtypes.MessageToSign)
+	if c, ok := cw.sigCache[v]; ok {
+		return c.s, c.signer, c.canonical
+	}
+	if cw.sigCache == nil {
+		cw.sigCache = map[string]c16Sig{}
+	}
+	s, signer, canonical = cw.sigOfUncached(v)
+	cw.sigCache[v] = c16Sig{s, signer, canonical}
+	return
+}
+
+func (cw *c16World) sigOfUncached(v string) (s string, signer string, canonical bool) {
+	if cw.sigA == nil {
+		cw.sigA = signMsg(cw.A, vauthtypes.MessageToSign)
+	}
+	a := cw.sigA
 	switch v {
 	case "A":
 		return "0x" + hex.EncodeToString(a), "A", true
-	case "B":
-		return "0x" + hex.EncodeToString(signMsg(cw.B, vauthtypes.MessageToSign)), "B", true
+	case "B", "R", "E", "P":
+		return "0x" + hex.EncodeToString(signMsg(cw.acct(v), vauthtypes.MessageToSign)), v, true
 	case "A-upper":
 		return "0x" + strings.ToUpper(hex.EncodeToString(a)), "A", false
 	case "A-64":
@@ -131,6 +239,77 @@ func common32(v *big.Int) []byte {
 	return out
 }
 
+// c16Verdict is what the reference says about one (account, signature) pair.
+type c16Verdict struct {
+	sigValid    bool // the signature was made by the key whose Ethereum address IS the account (so the account is 20 bytes)
+	defectShape bool // not valid, but exactly what the known defect accepts: account not 20 bytes, signer's address = BytesToAddress(account)
+}
+
+func (v c16Verdict) kind() int {
+	switch {
+	case v.sigValid:
+		return c16Legit
+	case v.defectShape:
+		return c16KnownDefect
+	}
+	return c16Unexplained
+}
+
+func (cw *c16World) judge(acc []byte, signer string) c16Verdict {
+	if signer == "" {
+		return c16Verdict{}
+	}
+	k := cw.acct(signer)
+	if len(acc) == common.AddressLength && bytes.Equal(acc, k.Acc()) {
+		return c16Verdict{sigValid: true}
+	}
+	return c16Verdict{defectShape: len(acc) != common.AddressLength && common.BytesToAddress(acc) == k.Eth()}
+}
+
+func (cw *c16World) opAddrs(op c16Op) (sub, acc sdk.AccAddress) {
+	sub = cw.addr(op.Submitter)
+	acc = sub
+	if op.Account != "self" {
+		acc = cw.addr(op.Account)
+	}
+	return
+}
+
+// opMsg builds the message of a submission (a fresh copy on every call).
+func (cw *c16World) opMsg(op c16Op) *vauthtypes.MsgSubmitProofExternalOwnedAccount {
+	if m, ok := cw.msgCache[op]; ok {
+		c := *m
+		return &c
+	}
+	if cw.msgCache == nil {
+		cw.msgCache = map[c16Op]*vauthtypes.MsgSubmitProofExternalOwnedAccount{}
+	}
+	m := cw.opMsgUncached(op)
+	cw.msgCache[op] = m
+	c := *m
+	return &c
+}
+
+func (cw *c16World) opMsgUncached(op c16Op) *vauthtypes.MsgSubmitProofExternalOwnedAccount {
+	sub, acc := cw.opAddrs(op)
+	sig, _, _ := cw.sigOf(op.Sig)
+	accStr := acc.String()
+	if op.Spell == "upper" {
+		accStr = strings.ToUpper(accStr)
+	}
+	return &vauthtypes.MsgSubmitProofExternalOwnedAccount{Submitter: sub.String(), Account: accStr, Signature: sig}
+}
+
+// validateBasic is the stateless part of a submission (baseapp runs it before anything else); a panic counts as a refusal.
+func (cw *c16World) validateBasic(op c16Op) (err error) {
+	defer func() {
+		if r := recover(); r != nil {
+			err = fmt.Errorf("panic: %v", r)
+		}
+	}()
+	return cw.opMsg(op).ValidateBasic()
+}
+
 func (cw *c16World) exec(parent sdk.Context, op c16Op) (ctx sdk.Context, ok bool, errMsg string) {
 	ctx, _ = parent.CacheContext()
 	defer func() {
@@ -139,17 +318,7 @@ func (cw *c16World) exec(parent sdk.Context, op c16Op) (ctx sdk.Context, ok bool
 			ok, errMsg = false, "panic: "+fmt.Sprint(r)
 		}
 	}()
-	sub := cw.acct(op.Submitter)
-	acc := sub
-	if op.Account != "self" {
-		acc = cw.acct(op.Account)
-	}
-	sig, _, _ := cw.sigOf(op.Sig)
-	accStr := acc.Bech()
-	if op.Spell == "upper" {
-		accStr = strings.ToUpper(accStr)
-	}
-	msg := &vauthtypes.MsgSubmitProofExternalOwnedAccount{Submitter: sub.Bech(), Account: accStr, Signature: sig}
+	msg := cw.opMsg(op)
 	// baseapp runs ValidateBasic of every message before the ante handler; a panic there is recovered like any other
 	err := msg.ValidateBasic()
 	if err == nil {
@@ -162,16 +331,30 @@ func (cw *c16World) exec(parent sdk.Context, op c16Op) (ctx sdk.Context, ok bool
 	return ctx, true, ""
 }
 
+// how an address got into the proof store according to the reference
+const (
+	c16Legit       = 1 // a valid proof for exactly this byte string was accepted
+	c16KnownDefect = 2 // the implementation stored a proof the property forbids, of exactly the known defect's shape
+	c16Unexplained = 3 // the implementation stored a proof the property forbids (reported when it happened)
+)
+
+// c16Rec is one stored proof according to the reference: how it got there and the strings of the first accepted submission.
+type c16Rec struct {
+	Kind         int
+	Account, Sig string
+}
+
+// c16Model is the reference: the stored proofs as a set of exact byte strings (hex), balances of the submitters, supply.
 type c16Model struct {
-	Proven map[string]bool
+	Stored map[string]c16Rec
 	Bal    map[string]*big.Int
 	Supply *big.Int
 }
 
 func (m *c16Model) clone() *c16Model {
-	n := &c16Model{Proven: map[string]bool{}, Bal: map[string]*big.Int{}, Supply: new(big.Int).Set(m.Supply)}
-	for k, v := range m.Proven {
-		n.Proven[k] = v
+	n := &c16Model{Stored: map[string]c16Rec{}, Bal: map[string]*big.Int{}, Supply: new(big.Int).Set(m.Supply)}
+	for k, v := range m.Stored {
+		n.Stored[k] = v
 	}
 	for k, v := range m.Bal {
 		n.Bal[k] = new(big.Int).Set(v)
@@ -179,43 +362,161 @@ func (m *c16Model) clone() *c16Model {
 	return n
 }
 
-func (cw *c16World) proofBytes(ctx sdk.Context, a *world.Acct) []byte {
-	return ctx.KVStore(cw.w.Keys[vauthtypes.StoreKey]).Get(vauthtypes.KeyProofExternalOwnedAccountByAddress(a.Acc()))
+func (cw *c16World) initialModel() *c16Model {
+	m := &c16Model{Stored: map[string]c16Rec{}, Bal: map[string]*big.Int{}, Supply: cw.w.Supply(cw.root, world.Denom)}
+	for _, n := range cw.funded {
+		m.Bal[n] = cw.balance(cw.root, n)
+	}
+	return m
+}
+
+// key identifies a reference state.
+func (m *c16Model) key(funded []string) string {
+	var ks []string
+	for k, r := range m.Stored {
+		ks = append(ks, k+"="+r.Account+"/"+r.Sig)
+	}
+	sort.Strings(ks)
+	for _, n := range funded {
+		ks = append(ks, n+":"+m.Bal[n].String())
+	}
+	return strings.Join(ks, ";")
+}
+
+// mayAccept is the reference's necessary condition for a submission to be stored (besides the signature): the account has no
+// proof yet and the submitter can pay.
+func (cw *c16World) mayAccept(m *c16Model, op c16Op) bool {
+	_, acc := cw.opAddrs(op)
+	return m.Stored[hex.EncodeToString(acc)].Kind == 0 && m.Bal[op.Submitter].Cmp(c16Cost) >= 0
+}
+
+// apply advances the reference by one transition, following what the implementation did (violations are reported by check).
+func (cw *c16World) apply(m *c16Model, op c16Op, ok bool) {
+	if !ok {
+		return
+	}
+	_, acc := cw.opAddrs(op)
+	_, signer, _ := cw.sigOf(op.Sig)
+	v := cw.judge(acc, signer)
+	k := hex.EncodeToString(acc)
+	if m.Stored[k].Kind == 0 {
+		msg := cw.opMsg(op)
+		m.Stored[k] = c16Rec{Kind: v.kind(), Account: msg.Account, Sig: msg.Signature}
+	}
+	m.Bal[op.Submitter] = new(big.Int).Sub(m.Bal[op.Submitter], c16Cost)
+	m.Supply = new(big.Int).Sub(m.Supply, c16Cost)
+}
+
+// proofKey is the store key of the proof of an exact byte string, built here (not by the code under test).
+func proofKey(acc []byte) []byte {
+	return append(append([]byte{}, vauthtypes.KeyPrefixProofExternalOwnedAccount...), acc...)
+}
+
+func (cw *c16World) proofBytes(ctx sdk.Context, acc []byte) []byte {
+	return ctx.KVStore(cw.w.Keys[vauthtypes.StoreKey]).Get(proofKey(acc))
+}
+
+// storedKeys lists (hex) the address part of every key of the proof store.
+func (cw *c16World) storedKeys(ctx sdk.Context) []string {
+	it := storetypes.KVStorePrefixIterator(ctx.KVStore(cw.w.Keys[vauthtypes.StoreKey]), vauthtypes.KeyPrefixProofExternalOwnedAccount)
+	defer it.Close()
+	var out []string
+	for ; it.Valid(); it.Next() {
+		out = append(out, hex.EncodeToString(it.Key()[len(vauthtypes.KeyPrefixProofExternalOwnedAccount):]))
+	}
+	sort.Strings(out)
+	return out
+}
+
+type c16Bad struct{ msg, sig string }
+
+var c16MsgHash = "0x" + hex.EncodeToString(ethcrypto.Keccak256([]byte(vauthtypes.MessageToSign)))
+
+// observeProofs compares the proof store seen through the keeper and through the raw store with the reference set.
+func (cw *c16World) observeProofs(stored map[string]c16Rec, parent *sdk.Context, post sdk.Context, fail func(f string, a ...interface{})) {
+	for _, n := range c16Universe() {
+		x := cw.addr(n)
+		has := cw.w.App.VAuthKeeper.HasProofExternalOwnedAccount(post, x)
+		rec := stored[hex.EncodeToString(x)]
+		want := rec.Kind != 0
+		if has != want {
+			fail("HasProof(%s) = %v, reference %v (proven addresses are exact byte strings)", n, has, want)
+			continue
+		}
+		p := cw.w.App.VAuthKeeper.GetProofExternalOwnedAccount(post, x)
+		if (p != nil) != want {
+			fail("GetProof(%s) present = %v, reference %v", n, p != nil, want)
+		}
+		if p != nil {
+			if a, err := sdk.AccAddressFromBech32(p.Account); err != nil || !bytes.Equal(a, x) {
+				fail("GetProof(%s) returns the record of another account: %s", n, p.Account)
+			}
+			if want && (p.Account != rec.Account || p.Signature != rec.Sig || p.Hash != c16MsgHash) {
+				fail("GetProof(%s) = {%s %s %s}, reference: the strings of the first accepted submission {%s %s %s}", n, p.Account, p.Hash, p.Signature, rec.Account, c16MsgHash, rec.Sig)
+			}
+		}
+		if parent != nil {
+			if before := cw.proofBytes(*parent, x); before != nil && !bytes.Equal(before, cw.proofBytes(post, x)) {
+				fail("stored proof of %s was altered", n)
+			}
+		}
+	}
+	var want []string
+	for k := range stored {
+		want = append(want, k)
+	}
+	sort.Strings(want)
+	if got := cw.storedKeys(post); strings.Join(got, ",") != strings.Join(want, ",") {
+		fail("proof store holds records for %v, reference %v", got, want)
+	}
 }
 
 // check evaluates one transition and advances the model.
-func (cw *c16World) check(m *c16Model, parent, post sdk.Context, op c16Op, ok bool, errMsg string) (bad []string) {
-	fail := func(f string, a ...interface{}) { bad = append(bad, fmt.Sprintf(f, a...)) }
+func (cw *c16World) check(m *c16Model, parent sdk.Context, parentHash [32]byte, post sdk.Context, op c16Op, ok bool, errMsg string, reached, observe bool) (bad []c16Bad) {
+	fail := func(f string, a ...interface{}) { bad = append(bad, c16Bad{msg: fmt.Sprintf(f, a...)}) }
+	sub, acc := cw.opAddrs(op)
 	_, signer, canonical := cw.sigOf(op.Sig)
-	valid := op.Account != "self" && signer == op.Account // the signature was made by the key of the account to prove
+	v := cw.judge(acc, signer)
+	self := bytes.Equal(sub, acc)
+	key := hex.EncodeToString(acc)
 	canPay := m.Bal[op.Submitter].Cmp(c16Cost) >= 0
 	if ok {
-		if !valid {
+		switch {
+		case v.sigValid:
+		case v.defectShape:
+			bad = append(bad, c16Bad{sig: c16SigLongAccount, msg: fmt.Sprintf("proof stored for the %d-byte account %s on a signature by %s, whose address is only the account's last 20 bytes", len(acc), op.Account, signer)})
+		default:
 			fail("proof stored although the signature was not made by the account's key over the module's message")
 		}
-		if op.Account != "self" && m.Proven[op.Account] {
+		if m.Stored[key].Kind != 0 {
 			fail("an already proven account was proven again")
 		}
 		if !canPay {
 			fail("submitter could not afford the fee")
 		}
-		if op.Account != "self" {
-			m.Proven[op.Account] = true
-		}
-		m.Bal[op.Submitter] = new(big.Int).Sub(m.Bal[op.Submitter], c16Cost)
-		m.Supply = new(big.Int).Sub(m.Supply, c16Cost)
 	} else {
-		if valid && canonical && canPay && !m.Proven[op.Account] {
+		if v.sigValid && !self && canonical && canPay && m.Stored[key].Kind == 0 {
 			fail("alphabet-sanity: a canonical valid submission was refused: %s", errMsg)
 		}
-		if h1, h2 := cw.w.Hash(parent), cw.w.Hash(post); h1 != h2 {
+		if (reached || observe) && cw.w.Hash(post) != parentHash {
 			fail("a rejected submission changed state")
 		}
+		if !observe {
+			// the refused branch was discarded (as baseapp does) and post is a fresh branch of parent: every observation below
+			// would repeat the one made when the parent state was reached
+			return bad
+		}
 	}
+	cw.apply(m, op, ok)
 	// observable state vs model
-	for _, n := range []string{"R", "E", "P"} {
-		if got := cw.w.Balance(post, cw.acct(n).Eth(), world.Denom); got.Cmp(m.Bal[n]) != 0 {
+	for _, n := range cw.funded {
+		if got := cw.balance(post, n); got.Cmp(m.Bal[n]) != 0 {
 			fail("balance of %s = %s, reference %s", n, got, m.Bal[n])
+		}
+	}
+	for _, n := range []string{"A", "B"} {
+		if got := cw.balance(post, n); got.Sign() != 0 {
+			fail("balance of %s = %s, reference 0", n, got)
 		}
 	}
 	if got := cw.w.Supply(post, world.Denom); got.Cmp(m.Supply) != 0 {
@@ -224,21 +525,47 @@ func (cw *c16World) check(m *c16Model, parent, post sdk.Context, op c16Op, ok bo
 	if v := cw.w.Balance(post, world.ModuleAddr(vauthtypes.ModuleName), world.Denom); v.Sign() != 0 {
 		fail("vauth module account holds %s", v)
 	}
-	for _, n := range []string{"A", "B", "R", "E", "P"} {
-		has := cw.w.App.VAuthKeeper.HasProofExternalOwnedAccount(post, cw.acct(n).Acc())
-		if has != m.Proven[n] {
-			fail("proof stored for %s = %v, reference %v", n, has, m.Proven[n])
-		}
-		if before := cw.proofBytes(parent, cw.acct(n)); before != nil && !bytes.Equal(before, cw.proofBytes(post, cw.acct(n))) {
-			fail("stored proof of %s was altered", n)
-		}
-	}
+	cw.observeProofs(m.Stored, &parent, post, fail)
 	return bad
 }
 
-func c16Alphabet() []c16Op {
+// anteClause runs the real vesting authorization decorator on a proof-store state for every vesting-creation message kind and every
+// address of the universe as target: it lets the message through iff a proof for exactly the target's bytes is stored.
+func (cw *c16World) anteClause(m *c16Model, ctx sdk.Context, out func(kind, target string, passed bool), fail func(sig, msg string)) {
+	tx := cw.w.Enc.TxConfig.NewTxBuilder()
+	dec := cosmoslane.NewCosmosLaneVestingMessagesAuthorizationDecorator(cw.w.App.VAuthKeeper)
+	for _, kind := range []string{"vesting", "periodic", "permanent"} {
+		for _, tn := range c16Universe() {
+			t := cw.addr(tn)
+			if err := tx.SetMsgs(cw.vestingMsg(kind, cw.R, t)); err != nil {
+				panic(err)
+			}
+			reached := false
+			_, err := dec.AnteHandle(ctx, tx.GetTx(), false, func(c sdk.Context, _ sdk.Tx, _ bool) (sdk.Context, error) { reached = true; return c, nil })
+			passed := err == nil && reached
+			how := m.Stored[hex.EncodeToString(t)].Kind
+			switch {
+			case passed && how == c16KnownDefect:
+				fail(c16SigLongAccount, fmt.Sprintf("the ante check lets a %s-creation message for the %d-byte target %s through (its proof was stored on a signature by the key of its last 20 bytes)", kind, len(t), tn))
+			case passed && how != c16Legit:
+				fail("", fmt.Sprintf("the ante check lets a %s-creation message for %s through although no valid proof for exactly that address was accepted", kind, tn))
+			case !passed && how == c16Legit:
+				fail("", fmt.Sprintf("alphabet-sanity: the ante check refuses a %s-creation message for the proven address %s: %v", kind, tn, err))
+			}
+			out(kind, tn, passed)
+		}
+	}
+}
+
+// c16CoreOps is the number of ops at the head of every alphabet that involve 20-byte addresses only.
+const c16CoreOps = 94
+
+// c16Alphabet is the submission alphabet, simplest first.
+func c16Alphabet(thorough bool) []c16Op {
 	var ops []c16Op
-	for _, sig := range []string{"A", "B", "A-upper", "A-64", "A-66", "empty", "garbage", "A-malleated", "A-other-msg", "A-v27"} {
+	sigs := []string{"A", "B", "A-upper", "A-64", "A-66", "empty", "garbage", "A-malleated", "A-other-msg", "A-v27"}
+	// 20-byte accounts, 20-byte submitters
+	for _, sig := range sigs {
 		for _, acc := range []string{"A", "B", "self"} {
 			for _, sub := range []string{"R", "E", "P"} {
 				ops = append(ops, c16Op{Submitter: sub, Account: acc, Sig: sig})
@@ -251,6 +578,57 @@ func c16Alphabet() []c16Op {
 			ops = append(ops, c16Op{Submitter: sub, Account: acc, Sig: acc, Spell: "upper"})
 		}
 	}
+	if len(ops) != c16CoreOps {
+		panic("c16CoreOps")
+	}
+	// accounts that are not 20 bytes and collide with A / B on their first or last 20 (19) bytes, signed by each plausible key
+	long := []string{"A|pad", "pad|A", "A|B", "B|A", "B|pad", "pad|B"}
+	short := []string{"A[:19]", "A[1:]"}
+	if !thorough {
+		for _, acc := range long {
+			for _, sig := range []string{"A", "B", "garbage"} {
+				for _, sub := range []string{"R", "E", "P"} {
+					ops = append(ops, c16Op{Submitter: sub, Account: acc, Sig: sig})
+				}
+			}
+		}
+		for _, acc := range short {
+			for _, sig := range []string{"A", "B"} {
+				ops = append(ops, c16Op{Submitter: "R", Account: acc, Sig: sig})
+			}
+		}
+		// submitters that are not 20 bytes (funded genesis accounts at A||pad and pad||B)
+		for _, sub := range []string{c16LongRich, c16LongExact} {
+			for _, acc := range []string{"A", "B", "self", "A|pad", "pad|A", "pad|B", "A|B", "B|A"} {
+				for _, sig := range []string{"A", "B"} {
+					ops = append(ops, c16Op{Submitter: sub, Account: acc, Sig: sig})
+				}
+			}
+		}
+		return ops
+	}
+	long = append(long, "zpad|A", "A|zpad", "A|R", "R|A")
+	short = append(short, "B[:19]", "B[1:]")
+	for _, acc := range append(append([]string{}, long...), short...) {
+		for _, sig := range append([]string{"R"}, sigs...) {
+			for _, sub := range []string{"R", "E", "P", c16LongRich, c16LongExact} {
+				ops = append(ops, c16Op{Submitter: sub, Account: acc, Sig: sig})
+			}
+		}
+	}
+	for _, sub := range []string{c16LongRich, c16LongExact} {
+		for _, acc := range []string{"A", "B", "self"} {
+			for _, sig := range sigs {
+				ops = append(ops, c16Op{Submitter: sub, Account: acc, Sig: sig})
+			}
+		}
+	}
+	// a key proving itself / an account signed by the submitter's own key
+	for _, acc := range []string{"A", "B", "self"} {
+		for _, sub := range []string{"R", "E"} {
+			ops = append(ops, c16Op{Submitter: sub, Account: acc, Sig: sub})
+		}
+	}
 	return ops
 }
 
@@ -259,22 +637,22 @@ func c16Alphabet() []c16Op {
 // ---------------------------------------------------------------------------
 
 type c16Route struct {
-	Proven  []string `json:"proven"`  // accounts proven by a tx in an earlier block
+	Proven  []string `json:"proven"`  // proof submissions sent by R in earlier blocks: "account" (signed by that key) or "account/signer" (address expressions)
 	Msg     string   `json:"msg"`     // vesting | periodic | permanent
-	Target  string   `json:"target"`  // A | B
+	Target  string   `json:"target"`  // address expression
 	Routing string   `json:"routing"` // top | exec1..exec5 | grant | beside-send
 }
 
-func (cw *c16World) vestingMsg(kind string, from, to *world.Acct) sdk.Msg {
+func (cw *c16World) vestingMsg(kind string, from *world.Acct, to sdk.AccAddress) sdk.Msg {
 	amt := sdk.NewCoins(sdk.NewCoin(world.Denom, sdkmath.NewInt(1000)))
 	end := world.BlockTime(100).Unix()
 	switch kind {
 	case "vesting":
-		return &vestingtypes.MsgCreateVestingAccount{FromAddress: from.Bech(), ToAddress: to.Bech(), Amount: amt, EndTime: end, Delayed: true}
+		return &vestingtypes.MsgCreateVestingAccount{FromAddress: from.Bech(), ToAddress: to.String(), Amount: amt, EndTime: end, Delayed: true}
 	case "periodic":
-		return &vestingtypes.MsgCreatePeriodicVestingAccount{FromAddress: from.Bech(), ToAddress: to.Bech(), StartTime: world.BlockTime(1).Unix(), VestingPeriods: []vestingtypes.Period{{Length: 3600, Amount: amt}}}
+		return &vestingtypes.MsgCreatePeriodicVestingAccount{FromAddress: from.Bech(), ToAddress: to.String(), StartTime: world.BlockTime(1).Unix(), VestingPeriods: []vestingtypes.Period{{Length: 3600, Amount: amt}}}
 	case "permanent":
-		return &vestingtypes.MsgCreatePermanentLockedAccount{FromAddress: from.Bech(), ToAddress: to.Bech(), Amount: amt}
+		return &vestingtypes.MsgCreatePermanentLockedAccount{FromAddress: from.Bech(), ToAddress: to.String(), Amount: amt}
 	}
 	panic(kind)
 }
@@ -289,29 +667,74 @@ func vestingURL(kind string) string {
 	return sdk.MsgTypeURL(&vestingtypes.MsgCreatePermanentLockedAccount{})
 }
 
+func (cw *c16World) isVestingAccount(ctx sdk.Context, a sdk.AccAddress) bool {
+	_, is := cw.w.App.AccountKeeper.GetAccount(ctx, a).(interface{ GetEndTime() int64 })
+	return is
+}
+
 func c16RunRoute(c c16Route) (fs []ev.Finding, outcome string) {
-	fail := func(clause, detail string) {
-		fs = append(fs, ev.Finding{Clause: clause, Detail: detail, Replay: map[string]interface{}{"route": c}})
+	failS := func(clause, sig, detail string) {
+		fs = append(fs, ev.Finding{Clause: clause, Signature: sig, Detail: detail, Replay: map[string]interface{}{"route": c}})
 	}
-	cw := c16Setup()
+	fail := func(clause, detail string) { failS(clause, "", detail) }
+	cw := c16Setup(false)
 	w := cw.w
 	accNumR := w.AccNum(w.Ctx(), cw.R.Acc())
 	seq := uint64(0)
 	fee := new(big.Int).Mul(big.NewInt(2_000_000), big.NewInt(1_000_000_000))
-	proven := map[string]bool{}
+	stored := map[string]c16Rec{}
 	for _, p := range c.Proven {
-		sig, _, _ := cw.sigOf(p)
-		msg := &vauthtypes.MsgSubmitProofExternalOwnedAccount{Submitter: cw.R.Bech(), Account: cw.acct(p).Bech(), Signature: sig}
-		br := w.Block([][]byte{w.CosmosTx(cw.R, accNumR, seq, 2_000_000, fee, msg)})
-		seq++
-		if br.Panic != "" || br.Err != nil || br.Res.TxResults[0].Code != 0 {
-			fail("alphabet-sanity", fmt.Sprintf("proof submission tx for %s failed: %v %v %s", p, br.Panic, br.Err, br.Res.TxResults[0].Log))
-			return fs, "setup-failed"
+		accExpr, signer := p, p
+		if i := strings.IndexByte(p, '/'); i >= 0 {
+			accExpr, signer = p[:i], p[i+1:]
 		}
-		proven[p] = true
-		// the tx costs exactly the fixed fee (burnt) plus the tx fee
+		acc := cw.addr(accExpr)
+		sig, _, _ := cw.sigOf(signer)
+		v := cw.judge(acc, signer)
+		msg := &vauthtypes.MsgSubmitProofExternalOwnedAccount{Submitter: cw.R.Bech(), Account: acc.String(), Signature: sig}
+		supBefore := w.Supply(w.Ctx(), world.Denom)
+		br := w.Block([][]byte{w.CosmosTx(cw.R, accNumR, seq, 2_000_000, fee, msg)})
+		if br.Panic != "" || br.Err != nil {
+			fail("block-executes", fmt.Sprintf("proof submission tx for %s: panic=%q err=%v", p, br.Panic, br.Err))
+			return fs, "HALT"
+		}
+		r := br.Res.TxResults[0]
+		// a submission refused by ValidateBasic never reaches the ante handler: neither fee nor sequence is consumed
+		if w.App.AccountKeeper.GetAccount(w.Ctx(), cw.R.Acc()).GetSequence() > seq {
+			seq++
+		}
+		key := hex.EncodeToString(acc)
+		desc := fmt.Sprintf("tx by R proving %s (%d bytes) with a signature by %s: code=%d log=%s", accExpr, len(acc), signer, r.Code, r.Log)
+		if r.Code == 0 {
+			if stored[key].Kind != 0 {
+				fail("proven-address-never-proven-again", desc)
+			} else {
+				stored[key] = c16Rec{Kind: v.kind(), Account: msg.Account, Sig: msg.Signature}
+			}
+			switch {
+			case v.sigValid:
+			case v.defectShape:
+				failS("proof-only-with-signature-of-the-account", c16SigLongAccount, desc)
+			default:
+				fail("proof-only-with-signature-of-the-account", desc)
+			}
+			if d := new(big.Int).Sub(supBefore, w.Supply(w.Ctx(), world.Denom)); d.Cmp(c16Cost) != 0 {
+				fail("accepted-proof-burns-exactly-the-fee", fmt.Sprintf("%s: supply fell by %s", desc, d))
+			}
+		} else {
+			if v.sigValid && stored[key].Kind == 0 {
+				fail("alphabet-sanity", "valid proof submission failed: "+desc)
+				return fs, "setup-failed"
+			}
+			if d := new(big.Int).Sub(supBefore, w.Supply(w.Ctx(), world.Denom)); d.Sign() != 0 {
+				fail("rejected-proof-burns-nothing", fmt.Sprintf("%s: supply fell by %s", desc, d))
+			}
+		}
+		cw.observeProofs(stored, nil, w.Ctx(), func(f string, a ...interface{}) {
+			fail("proof-store-matches-reference", fmt.Sprintf("after %s: ", desc)+fmt.Sprintf(f, a...))
+		})
 	}
-	target := cw.acct(c.Target)
+	target := cw.addr(c.Target)
 	inner := cw.vestingMsg(c.Msg, cw.R, target)
 	var msgs []sdk.Msg
 	switch {
@@ -372,14 +795,23 @@ func c16RunRoute(c c16Route) (fs []ev.Finding, outcome string) {
 	}
 	r := br.Res.TxResults[0]
 	ctx := w.Ctx()
-	acc := w.App.AccountKeeper.GetAccount(ctx, target.Acc())
-	_, isVesting := acc.(interface{ GetEndTime() int64 })
-	desc := fmt.Sprintf("%s to %s via %s, proven=%v: code=%d vestingAccountCreated=%v log=%s", c.Msg, c.Target, c.Routing, c.Proven, r.Code, isVesting, r.Log)
-	if isVesting && !proven[c.Target] {
-		fail("vesting-account-only-for-proven-address", desc)
+	isVesting := cw.isVestingAccount(ctx, target)
+	how := stored[hex.EncodeToString(target)].Kind
+	desc := fmt.Sprintf("%s to %s (%d bytes) via %s, proof submissions=%v: code=%d vestingAccountCreated=%v log=%s", c.Msg, c.Target, len(target), c.Routing, c.Proven, r.Code, isVesting, r.Log)
+	if isVesting && how != c16Legit {
+		sig := ""
+		if how == c16KnownDefect {
+			sig = c16SigLongAccount
+		}
+		failS("vesting-account-only-for-proven-address", sig, desc)
 	}
 	if isVesting && c.Routing != "top" {
 		fail("vesting-creation-never-through-exec-or-grant", desc)
+	}
+	for _, n := range c16Universe() {
+		if x := cw.addr(n); !bytes.Equal(x, target) && cw.isVestingAccount(ctx, x) {
+			fail("vesting-account-only-at-the-target", desc+": vesting account found at "+n)
+		}
 	}
 	if c.Routing == "grant" || c.Routing == "sib-grant" {
 		if r.Code == 0 {
@@ -389,12 +821,15 @@ func c16RunRoute(c c16Route) (fs []ev.Finding, outcome string) {
 			fail("grants-for-vesting-creation-refused", desc+" (grant stored)")
 		}
 	}
-	if c.Routing == "top" && proven[c.Target] && !isVesting {
+	if c.Routing == "top" && how == c16Legit && !isVesting {
 		fail("alphabet-sanity", "top-level vesting creation for a proven address did not create the account: "+desc)
 	}
 	if sup := w.Supply(ctx, world.Denom); sup.Cmp(supBefore) != 0 {
 		fail("vesting-routing-leaves-supply-alone", fmt.Sprintf("%s -> %s", supBefore, sup))
 	}
+	cw.observeProofs(stored, nil, ctx, func(f string, a ...interface{}) {
+		fail("proof-store-matches-reference", "after "+desc+": "+fmt.Sprintf(f, a...))
+	})
 	if isVesting {
 		return fs, "created"
 	}
@@ -404,11 +839,164 @@ func c16RunRoute(c c16Route) (fs []ev.Finding, outcome string) {
 	return fs, "rejected"
 }
 
+func c16Routes(thorough bool) []c16Route {
+	setups := [][]string{nil, {"A"}, {"A", "B"},
+		{"B|A/A"},        // forged: victim||attacker signed by the attacker
+		{"A|B/A"},        // attacker||victim signed by the attacker
+		{"A", "pad|A/A"}, // a 32-byte address ending with a proven EOA, signed by that EOA
+		{"A|pad/A"},      // a 32-byte address starting with an EOA, signed by that EOA
+	}
+	targets := []string{"A", "B", "A|pad", "pad|A", "A|B", "B|A", "B|pad", "pad|B"}
+	if thorough {
+		setups = append(setups, []string{"B|A/B"}, []string{"A", "B|A/A"}, []string{"zpad|A/A"}, []string{"A|zpad/A"}, []string{"A[:19]/A"}, []string{"A[1:]/A"}, []string{"A", "B", "A|B/B", "B|A/A"})
+		targets = append(targets, "zpad|A", "A|zpad", "A[:19]", "A[1:]", "B[:19]", "B[1:]")
+	}
+	var routes []c16Route
+	for si, proven := range setups {
+		for _, msg := range []string{"vesting", "periodic", "permanent"} {
+			for _, target := range targets {
+				for _, r := range []string{"top", "exec1", "exec2", "exec3", "exec4", "exec5", "grant", "sib-exec1", "sib-exec2", "send-exec1", "send-exec2", "in-exec1", "in-exec2", "sib-grant"} {
+					if !thorough && r != "top" && r != "exec1" && r != "grant" && (si == 1 || si == 4 || si == 6) {
+						// quick tier: the deeper / sibling routings are crossed with 4 of the 7 proof histories
+						continue
+					}
+					routes = append(routes, c16Route{Proven: proven, Msg: msg, Target: target, Routing: r})
+				}
+			}
+		}
+	}
+	return routes
+}
+
+// c16BFS explores the proof-store states reachable with an alphabet to a depth or to fixpoint. Every shard discovers the same
+// state graph: only submissions that pass the stateless ValidateBasic can reach the message server and only those the reference
+// does not rule out (account without proof, submitter able to pay) are followed; reference states identify nodes, and the full
+// store hash of every accepted transition is compared with the hash of the node of the same reference state. The transitions
+// (every state × every op, the ruled-out ones too), evaluated against the reference, are divided among the shards.
+// The first c16CoreOps ops of an alphabet (20-byte accounts and submitters) are applied to every state of depth < maxDepth, the others
+// to every state of depth < wideDepth.
+func c16BFS(run *ev.Run, cw *c16World, name string, alpha []c16Op, maxDepth, wideDepth, shard, n int) {
+	type node struct {
+		ctx   sdk.Context
+		hash  [32]byte
+		m     *c16Model
+		path  []c16Op
+		depth int
+	}
+	var reach []int
+	reaches := map[int]bool{}
+	for oi, op := range alpha {
+		if cw.validateBasic(op) == nil {
+			reach = append(reach, oi)
+			reaches[oi] = true
+		}
+	}
+	root := cw.initialModel()
+	byKey := map[string]int{root.key(cw.funded): 0}
+	nodes := []node{{cw.root, cw.w.Hash(cw.root), root, nil, 0}}
+	for i := 0; i < len(nodes); i++ {
+		nd := nodes[i]
+		if nd.depth >= maxDepth {
+			continue
+		}
+		for _, oi := range reach {
+			op := alpha[oi]
+			if oi >= c16CoreOps && nd.depth >= wideDepth {
+				break
+			}
+			if !cw.mayAccept(nd.m, op) {
+				continue
+			}
+			nctx, ok, _ := cw.exec(nd.ctx, op)
+			if !ok {
+				continue
+			}
+			m := nd.m.clone()
+			cw.apply(m, op, true)
+			k := m.key(cw.funded)
+			if _, seen := byKey[k]; seen {
+				continue
+			}
+			byKey[k] = len(nodes)
+			nodes = append(nodes, node{nctx, cw.w.Hash(nctx), m, append(append([]c16Op{}, nd.path...), op), nd.depth + 1})
+		}
+	}
+	fix := nodes[len(nodes)-1].depth < maxDepth
+	t := 0
+	for ni, nd := range nodes {
+		if ni%n == shard {
+			if ni > 0 {
+				run.Distinct(fmt.Sprintf("%x", nd.hash[:12]))
+			}
+			cw.anteClause(nd.m, nd.ctx, func(kind, target string, passed bool) {
+				run.Count("ante_evaluations", 1)
+				run.Outcome(fmt.Sprintf("ante/len%d/passed=%v", len(cw.addr(target)), passed))
+			}, func(sig, msg string) {
+				run.Fail(ev.Finding{Clause: "vesting-account-only-for-proven-address", Signature: sig, Detail: fmt.Sprint(nd.path) + " => " + msg, Replay: map[string]interface{}{"path": nd.path}})
+			})
+		}
+		if nd.depth >= maxDepth {
+			continue
+		}
+		for oi, op := range alpha {
+			if oi >= c16CoreOps && nd.depth >= wideDepth {
+				break
+			}
+			t++
+			if t%n != shard {
+				continue
+			}
+			nctx, ok, errMsg := cw.exec(nd.ctx, op)
+			path := append(append([]c16Op{}, nd.path...), op)
+			if ni == 0 && oi < 4*n {
+				// determinism: the first cases are executed twice
+				nctx2, ok2, errMsg2 := cw.exec(nd.ctx, op)
+				if ok2 != ok || errMsg2 != errMsg || cw.w.Hash(nctx2) != cw.w.Hash(nctx) {
+					fmt.Fprintln(os.Stderr, "HARNESS-NONDETERMINISM in C16 submission", op)
+					os.Exit(2)
+				}
+			}
+			if ok && !reaches[oi] {
+				fmt.Fprintln(os.Stderr, "HARNESS-NONDETERMINISM in C16: ValidateBasic refused this submission before", path)
+				os.Exit(2)
+			}
+			m := nd.m.clone()
+			bad := cw.check(m, nd.ctx, nd.hash, nctx, op, ok, errMsg, reaches[oi], ni == 0)
+			run.Count("transitions", 1)
+			cls := "refused"
+			if ok {
+				cls = "stored"
+				if j, known := byKey[m.key(cw.funded)]; known && nodes[j].hash != cw.w.Hash(nctx) {
+					bad = append(bad, c16Bad{msg: fmt.Sprintf("the store differs from the one reached by %v although the reference state (stored proofs, balances) is the same", nodes[j].path)})
+				}
+			} else if strings.HasPrefix(errMsg, "panic") {
+				cls = "panic-refused"
+			}
+			_, acc := cw.opAddrs(op)
+			run.Outcome(fmt.Sprintf("submit/%s/len%d/%s", op.Sig, len(acc), cls))
+			for _, b := range bad {
+				run.Fail(ev.Finding{Clause: "proof-store-matches-reference", Signature: b.sig, Detail: fmt.Sprint(path) + " => " + b.msg, Replay: map[string]interface{}{"path": path}})
+			}
+			if ok && run.Counter("sampled") < 2 {
+				run.Count("sampled", 1)
+				run.Sample(map[string]interface{}{"path": path})
+			}
+		}
+	}
+	run.Coverage["submission_search_fixpoint/"+name] = fix
+	run.Coverage["submission_states/"+name] = len(nodes)
+	run.Coverage["submission_depth_reached/"+name] = nodes[len(nodes)-1].depth
+	run.Coverage["submission_ops/"+name] = len(alpha)
+	run.Coverage["submission_ops_passing_validate_basic/"+name] = len(reach)
+}
+
 func runC16(replay string) int {
 	run := ev.NewRun("C16", "model_checking")
 	run.Assumptions = []string{
-		"part 1 drives ValidateBasic + the real vauth message server on CacheContext branches (a refusal or a handler panic discards the branch as baseapp does); part 2 drives complete transactions through FinalizeBlock",
+		"part 1 drives ValidateBasic + the real vauth message server on CacheContext branches (a refusal or a handler panic discards the branch as baseapp does) and the real vesting authorization ante decorator on every reached proof-store state; part 2 drives complete transactions through FinalizeBlock",
 		"which key signed which message is known by construction; upper-case and malleated encodings of a valid signature carry no expectation on acceptance, only on effects",
+		"reference: the proven addresses are a set of exact byte strings; a proof for account X is acceptable only when the signature was made by the key whose 20-byte Ethereum address is X, so no proof is acceptable for an account address whose length is not 20 bytes",
+		"submitters whose address is not 20 bytes are funded genesis accounts driven at message-server level only (no key can sign a transaction for them)",
 	}
 	if replay != "" {
 		return replayCase(run, replay, func(raw json.RawMessage) []ev.Finding {
@@ -425,92 +1013,45 @@ func runC16(replay string) int {
 				fmt.Println("outcome:", oc)
 				return fs
 			}
-			cw := c16Setup()
+			cw := c16Setup(true)
 			m := cw.initialModel()
 			ctx := cw.root
 			var fs []ev.Finding
+			ante := func() {
+				cw.anteClause(m, ctx, func(string, string, bool) {}, func(sig, msg string) {
+					fs = append(fs, ev.Finding{Clause: "vesting-account-only-for-proven-address", Signature: sig, Detail: msg})
+				})
+			}
+			ante()
 			for i, op := range c.Path {
 				nctx, ok, errMsg := cw.exec(ctx, op)
 				fmt.Printf("step %d %s -> ok=%v %s\n", i, op, ok, errMsg)
-				for _, b := range cw.check(m, ctx, nctx, op, ok, errMsg) {
-					fs = append(fs, ev.Finding{Clause: "proof-store-matches-reference", Detail: b})
+				for _, b := range cw.check(m, ctx, cw.w.Hash(ctx), nctx, op, ok, errMsg, true, true) {
+					fs = append(fs, ev.Finding{Clause: "proof-store-matches-reference", Signature: b.sig, Detail: b.msg})
 				}
 				ctx = nctx
+				ante()
 			}
 			return fs
 		})
 	}
-	var routes []c16Route
-	for _, proven := range [][]string{nil, {"A"}, {"A", "B"}} {
-		for _, msg := range []string{"vesting", "periodic", "permanent"} {
-			for _, target := range []string{"A", "B"} {
-				for _, r := range []string{"top", "exec1", "exec2", "exec3", "exec4", "exec5", "grant", "sib-exec1", "sib-exec2", "send-exec1", "send-exec2", "in-exec1", "in-exec2", "sib-grant"} {
-					routes = append(routes, c16Route{Proven: proven, Msg: msg, Target: target, Routing: r})
-				}
-			}
-		}
+	routes := c16Routes(run.Thorough())
+	type pass struct {
+		name      string
+		alpha     []c16Op
+		maxDepth  int // ops on 20-byte addresses only
+		wideDepth int // the other ops
 	}
-	alpha := c16Alphabet()
-	maxDepth := 4
+	passes := []pass{{"quick-alphabet", c16Alphabet(false), 4, 3}}
 	if run.Thorough() {
-		maxDepth = 8
+		passes = []pass{{"quick-alphabet", c16Alphabet(false), 8, 8}, {"thorough-alphabet", c16Alphabet(true), 3, 3}}
 	}
 	run.Sharded(Shards(), func(shard, n int) {
-		// part 1: BFS to fixpoint (sharded on the first op)
-		cw := c16Setup()
-		type node struct {
-			ctx  sdk.Context
-			m    *c16Model
-			path []c16Op
+		// part 1
+		cw := c16Setup(true)
+		for _, p := range passes {
+			c16BFS(run, cw, p.name, p.alpha, p.maxDepth, p.wideDepth, shard, n)
 		}
-		seen := map[[32]byte]bool{cw.w.Hash(cw.root): true}
-		frontier := []node{{cw.root, cw.initialModel(), nil}}
-		fix := false
-		for depth := 1; depth <= maxDepth; depth++ {
-			var next []node
-			for _, nd := range frontier {
-				for oi, op := range alpha {
-					if depth == 1 && oi%n != shard {
-						continue
-					}
-					nctx, ok, errMsg := cw.exec(nd.ctx, op)
-					m := nd.m.clone()
-					bad := cw.check(m, nd.ctx, nctx, op, ok, errMsg)
-					run.Count("transitions", 1)
-					path := append(append([]c16Op{}, nd.path...), op)
-					cls := "refused"
-					if ok {
-						cls = "stored"
-					} else if strings.HasPrefix(errMsg, "panic") {
-						cls = "panic-refused"
-					}
-					run.Outcome("submit/" + op.Sig + "/" + cls)
-					for _, b := range bad {
-						run.Fail(ev.Finding{Clause: "proof-store-matches-reference", Detail: fmt.Sprint(path) + " => " + b, Replay: map[string]interface{}{"path": path}})
-					}
-					if !ok {
-						continue
-					}
-					k := cw.w.Hash(nctx)
-					if seen[k] {
-						continue
-					}
-					seen[k] = true
-					run.Distinct(fmt.Sprintf("%x", k[:12]))
-					if run.Counter("sampled") < 2 {
-						run.Count("sampled", 1)
-						run.Sample(map[string]interface{}{"path": path})
-					}
-					next = append(next, node{nctx, m, path})
-				}
-			}
-			frontier = next
-			if len(frontier) == 0 {
-				fix = true
-				break
-			}
-		}
-		run.Coverage["submission_search_fixpoint"] = fix
 		// part 2
 		for i, c := range routes {
 			if i%n != shard {
@@ -525,7 +1066,8 @@ func runC16(replay string) int {
 			}
 			run.Count("transitions", int64(len(c.Proven)+1))
 			run.Count("routing_cases", 1)
-			run.Outcome("route/" + c.Routing + "/" + oc)
+			tl := len(c16AddrLen(c.Target))
+			run.Outcome(fmt.Sprintf("route/%s/len%d/%s", c.Routing, tl, oc))
 			run.Distinct(fmt.Sprintf("route:%v:%s:%s:%s:%s", c.Proven, c.Msg, c.Target, c.Routing, oc))
 			if i%(len(routes)/2+1) == 0 {
 				run.Sample(map[string]interface{}{"route": c, "outcome": oc})
@@ -538,15 +1080,23 @@ func runC16(replay string) int {
 	run.Coverage["states"] = run.NumDistinct() + 1
 	run.Coverage["traces_validated_against_impl"] = int(run.Counter("transitions"))
 	run.Coverage["exhaustive"] = true
-	run.Coverage["max_depth"] = maxDepth
-	run.Coverage["rule"] = fmt.Sprintf("part 1: BFS over branch states with the %d-op submission alphabet (submitter {rich, exactly-the-fee, one-short} × account {A, B, submitter itself; A and B also under the upper-case spelling of the bech32 address} × 10 signature variants: A's, B's, upper-case hex, 64/66 bytes, empty, garbage, (r,n−s,v⊕1) malleated, signed other message, v+27) to depth %d or fixpoint, full store hash as state identity, compared with a 3-field reference (proven set, balances, supply) after every transition; part 2: %d complete-transaction cases (proven set {∅,{A},{A,B}} × 3 vesting-creation messages × target {A,B} × routing {top level, MsgExec nested 1..5 with grantee = granter, MsgGrant, the nested message / the grant listed after a harmless MsgExec or MsgSend, or after a harmless MsgExec inside an outer MsgExec}) through FinalizeBlock", len(alpha), maxDepth, len(routes))
+	md, desc := 0, ""
+	for _, p := range passes {
+		if p.maxDepth > md {
+			md = p.maxDepth
+		}
+		desc += fmt.Sprintf("%s (%d ops; the %d ops on 20-byte addresses applied to every state of depth < %d, the others to every state of depth < %d, or to fixpoint); ", p.name, len(p.alpha), c16CoreOps, p.maxDepth, p.wideDepth)
+	}
+	run.Coverage["max_depth"] = md
+	run.Coverage["rule"] = fmt.Sprintf("addresses are expressions over the keys A, B (provable), R, E, P (submitters): the 20-byte key address, and 32-, 40- and 19-byte addresses built to collide with them on their first or last 20 (19) bytes (X||pad, pad||X, X||zeros, zeros||X, victim||attacker, attacker||victim, X[:19], X[1:]); %d of them are observed (HasProof, GetProof record, raw store keys, ante decorator) on every reached state. "+
+		"part 1: BFS over branch states with the submission alphabets %sops = submitter {rich, exactly-the-fee, one-short, funded 32-byte A||pad (3 fees), funded 32-byte pad||B (1 fee)} × account {A, B, submitter itself, the colliding non-20-byte addresses; A and B also under the upper-case spelling of the bech32 address} × signature variants {A's, B's (thorough alphabet: R's, the submitter's), upper-case hex, 64/66 bytes, empty, garbage, (r,n−s,v⊕1) malleated, signed other message, v+27}; the quick alphabet crosses the non-20-byte accounts with signatures {A's, B's, garbage} and the non-20-byte submitters with {A's, B's} only, the thorough alphabet is the full product; reference state (stored records as exact byte strings, balances) as state identity cross-checked with the full store hash, every transition compared with the reference, and the real vesting ante decorator run on every reached state for 3 message kinds × every observed address; "+
+		"part 2: %d complete-transaction cases (proof submissions in earlier blocks {∅,{A},{A,B}, victim||attacker signed by the attacker, attacker||victim signed by the attacker, pad||A signed by A after A, A||pad signed by A; thorough: 7 more; quick: routings other than top / exec1 / grant with 4 of the 7} × 3 vesting-creation messages × target {A, B and the colliding 32/40-byte (thorough: also zero-padded and 19-byte) addresses} × routing {top level, MsgExec nested 1..5 with grantee = granter, MsgGrant, the nested message / the grant listed after a harmless MsgExec or MsgSend, or after a harmless MsgExec inside an outer MsgExec}) through FinalizeBlock",
+		len(c16Universe()), desc, len(routes))
 	return run.Finish()
 }
 
-func (cw *c16World) initialModel() *c16Model {
-	m := &c16Model{Proven: map[string]bool{}, Bal: map[string]*big.Int{}, Supply: cw.w.Supply(cw.root, world.Denom)}
-	for _, n := range []string{"R", "E", "P"} {
-		m.Bal[n] = cw.w.Balance(cw.root, cw.acct(n).Eth(), world.Denom)
-	}
-	return m
+// c16AddrLen resolves an address expression without a world (the keys are fixed).
+func c16AddrLen(expr string) []byte {
+	cw := &c16World{R: world.NewAcct("c16-rich"), E: world.NewAcct("c16-exact"), P: world.NewAcct("c16-poor"), A: world.NewAcct("c16-A"), B: world.NewAcct("c16-B")}
+	return cw.addr(expr)
 }
